@@ -531,3 +531,32 @@ def is_unique_test(f, c, pol):
             if const_val(b) == 1 and any(is_count_type(f, w.get('t')) or w.get('f') == 'rc' or (w.get('fn') or '').endswith('::rc') for w in walk_expr(a)):
                 return (c['op'] == '==') == bool(pol)
     return False
+
+
+def check_discarded_decrement(ctx, prog, classes):
+    """R-RC.b (all members): a decrement of a shared count whose result is thrown away.  Whoever drops a reference must look
+    at the value the atomic decrement returned: if it is zero this was the last reference and the object has to be destroyed
+    here - another handle may have been dropped concurrently since any earlier test of the count.  Every expression statement
+    of a member of the handle classes that is just `--x.rc` / `x.rc--` is a violation."""
+    n = 0
+    for f in prog.functions:
+        if not f.get('body') or f.get('clsp') not in classes or f.get('implicit'):
+            continue
+        for s_ in ir.walk_stmts(f['body']):
+            if s_.get('k') != 'expr':
+                continue
+            e = strip(s_['e'])
+            while e.get('k') in ('paren', 'temp', 'cast'):
+                e = strip(e['e'])
+            is_dec = False
+            if e.get('k') == 'call' and e.get('op') == '--' and e.get('obj') is not None and strip_lv(e['obj']).get('k') == 'mem' and strip_lv(e['obj']).get('f') == 'rc':
+                is_dec = True
+            if e.get('k') == 'un' and e.get('op') in ('pre--', 'post--') and strip_lv(e['e']).get('k') == 'mem' and strip_lv(e['e']).get('f') == 'rc':
+                is_dec = True
+            if not is_dec:
+                continue
+            n += 1
+            ctx.analysed(f)
+            ctx.violation('R-RC.b', f['pq'], '%s%s:decrement result used' % (f['n'], f.get('sig') or ''), fwhere(f, s_.get('l')),
+                          '%s drops a reference with `%s` and ignores the value the decrement returned: when another handle was dropped concurrently this was the last reference and the shared object (and its elements) is never destroyed (instantiation %s)' % (f['pq'], pe(e), f['q']))
+    return n
